@@ -13,7 +13,7 @@ every world in which the user predicates answer as the model's `World.pred` says
 Encoding (trivial, total): a `PField V` is the `ParserField` instance with the attributes the model's fields stand
 for.  The model names modes by natural numbers; a mode is the character with that code point and a set of modes is a
 Python mode string (`LettersOk`: code points below the surrogate range, so that different numbers are different
-characters; `mode=''` is outside the model — Python reads it as "no mode").  The model has no `final` fields and no
+characters; the model's `modeExcludes` reads `mode=''` as Python does: no restriction).  The model has no `final` fields and no
 `default_factory` (a factory's value is the model's `default`).  `Legacy.none` is the code as it is now.
 -/
 namespace Utv.GenEq.C05
@@ -92,10 +92,14 @@ def reqLetters : Req → List Nat
 /-- all numbers of the list are code points below the surrogate range -/
 def okL (ms : List Nat) : Bool := ms.all fun n => decide (n < 0xD800)
 
-/-- mode numbers are code points of characters, and `mode=''` is not a mode string -/
+/-- mode numbers are code points of characters -/
 def LettersOk (o : Opts V) (f : PField V) : Prop :=
   okL o.mode.toList = true ∧ okL (f.mode.getD []) = true ∧ okL (flagLetters f.noInput) = true ∧
-  okL (flagLetters f.noOutput) = true ∧ okL (reqLetters f.required) = true ∧ f.mode ≠ some []
+  okL (flagLetters f.noOutput) = true ∧ okL (reqLetters f.required) = true
+
+/-- `copy_value` is the model world's `copy` -/
+def CopyOk (W : Obj.World V) (W5 : C05.World V) : Prop :=
+  ∀ d, W.ext "copy_value" [.val d] = .ok (.val (W5.copy d))
 
 /-- user predicates answer as the model's world says -/
 def WorldOk (W : Obj.World V) (W5 : C05.World V) : Prop :=
@@ -107,11 +111,12 @@ def encWorld (W5 : C05.World V) : Obj.World V where
     | .fn k, [.val v] => .ok (.bool (W5.pred k v))
     | _, _ => .error (.unmodelled "call outside the encoding")
   ext name args := match name, args with
-    | "copy_value", [x] => .ok x
+    | "copy_value", [.val d] => .ok (.val (W5.copy d))
     | _, _ => .error (.unmodelled "external function outside the encoding")
   clsAttr _ _ := none
 
 example (W5 : C05.World V) : WorldOk (encWorld W5) W5 := fun _ _ => rfl
+example (W5 : C05.World V) : CopyOk (encWorld W5) W5 := fun _ => rfl
 
 /-- `LettersOk` is satisfiable: mode 'r' (114) against a field with `mode='rw'`, `no_input='w'` -/
 example : LettersOk ({ mode := some 114 } : Opts Unit)
@@ -153,7 +158,7 @@ macro "field_simp" "[" ls:Lean.Parser.Tactic.simpLemma,* "]" : tactic =>
       encField, encOpts, encFlag, encReq, encLetters, encOnErr, encOptVal,
       getattr, lookupAttr, truthy, isinstance, contains, callable, SeqK.name,
       OVal.isUnprovided, OVal.isTrue, OVal.isNone, contains_ltr,
-      flagHolds, flagAt, isNoInput, isNoOutput, alwaysNoInput, isRequired, getDefault, getOnError, Legacy.none, $ls,*])
+      flagHolds, flagAt, modeExcludes, isNoInput, isNoOutput, alwaysNoInput, isRequired, getDefault, getOnError, Legacy.none, $ls,*])
 
 theorem C05_gen_always_no_input (W : Obj.World V) (o : Opts V) (f : PField V) (hl : LettersOk o f) :
     Field.always_no_input W (encField f) (encOpts o) = .ok (.bool (alwaysNoInput Legacy.none o f)) := by
@@ -197,17 +202,15 @@ theorem C05_gen_is_no_output (W : Obj.World V) (W5 : C05.World V) (hw : WorldOk 
     cases noOutput <;> cases omode <;> cases mode <;>
       simp only [flagLetters, reqLetters, Option.toList, Option.getD] at hl <;> field_simp [hl, hw _ _] <;> grind
 
-/-- `get_default(options, defer)`: which value is handed to `copy_value` (the copy itself is C19's business), or
-`unprovided` -/
-theorem C05_gen_get_default (W : Obj.World V) (o : Opts V) (f : PField V) (defer : Bool) :
-    Field.get_default W (encField f) (encOpts o) (.bool defer) =
-      match getDefault o f defer with
-      | some d => W.ext "copy_value" [.val d]
-      | none => .ok .unprovided := by
+/-- `get_default(options, defer)`: the (copied) value, or `unprovided` -/
+theorem C05_gen_get_default (W : Obj.World V) (W5 : C05.World V) (hcopy : CopyOk W W5) (o : Opts V) (f : PField V)
+    (defer : Bool) :
+    Field.get_default W (encField f) (encOpts o) (.bool defer) = .ok (encOptVal (getDefault W5 o f defer)) := by
   gen_obligation "C05_gen_get_default: the regenerated code (Utv.Gen) is no longer equal to the hand model here" by
     obtain ⟨_, _, _, _, _, ci, required, default, deferDefault, noInput, noOutput, mode, _, onError⟩ := f
     obtain ⟨omode, _, ir, nd, dd, fd, _, _, _, _, _, iv, _, oci⟩ := o
-    cases defer <;> cases nd <;> cases dd <;> cases deferDefault <;> cases fd <;> cases default <;> field_simp []
+    cases defer <;> cases nd <;> cases dd <;> cases deferDefault <;> cases fd <;> cases default <;>
+      field_simp [hcopy _]
 
 theorem C05_gen_get_on_error (W : Obj.World V) (o : Opts V) (f : PField V) :
     Field.get_on_error W (encField f) (encOpts o) = .ok (encOnErr (getOnError o f)) := by
@@ -314,145 +317,6 @@ theorem C05_gen_options_init (W : Obj.World V) (self : OVal V) (o : Opts V)
     simp only [key, field, Opts.normalise]
     obj_simp [getattr, lookupAttr]
 
-/-! ### `parse_value` / `parse_addition` under a *collecting* context: what is stored and which errors are handled -/
-
-/-- a context with the errors handled so far, under the options `o` -/
-def encCtx (o : Opts V) (errors : List (OVal V)) : OVal V :=
-  .obj "RuntimeContext" [("errors", .seq .list errors), ("tmp_errors", .seq .list []), ("options", encOpts o)]
-
-/-- a *collecting* run: `collect_errors=True`, no `max_errors` — `handle_error` records and goes on -/
-def Collecting (o : Opts V) : Prop := o.collectErrors = true ∧ o.maxErrors = none
-
-/-- which model error an error object in the context's list stands for (for the key / field name `k`) -/
-def errOf (k : Key) : OVal V → Option Err
-  | .obj "ExceedError" _ => some (.exceed k)
-  | .obj "ParseError" _ => some (.parse k)
-  | _ => none
-
-def errsOf (k : Key) (ctx : OVal V) : List Err :=
-  match getattr ctx "errors" with
-  | .ok (.seq _ es) => es.filterMap (errOf k)
-  | _ => []
-
-def optOf : OVal V → Option V
-  | .val v => some v
-  | _ => none
-
-/-- `parse_addition`: the value kept (if any) and the errors handled, as the model's pair -/
-def decodeAdd (k : Key) : OVal V × Obj.Outcome V → Option V × List Err
-  | (ctx, .ret v) => (optOf v, errsOf k ctx)
-  | (ctx, .raise _) => (none, errsOf k ctx)
-
-structure AddWorldOk (W : Obj.World V) (W5 : C05.World V) (k : Key) (ctx : OVal V) : Prop where
-  enter : W.ext "enter" [ctx, .int k, .none] = .ok (.obj "RuntimeContext" [("transformer", .fn 0)])
-  conv : ∀ x, W.call (.fn 0) [.val x, .cls 0] =
-    match W5.addConv x with
-    | some y => .ok (.val y)
-    | none => .error .typeError
-
-theorem C05_gen_parse_addition (W : Obj.World V) (W5 : C05.World V) (P : Parser V) (o : Opts V) (k : Key) (v : V)
-    (hcol : Collecting o) (hw : AddWorldOk W W5 k (encCtx o [])) :
-    (Parse.parse_addition W
-        (.obj "ClassParser" [("exclude_vars", .seq .list []), ("addition_type", if P.additionTyped then .cls 0 else .none)])
-        (.int k) (.val v) (encCtx o [])).map (decodeAdd k)
-      = .ok (parseAddition W5 P o k v) := by
-  gen_obligation "C05_gen_parse_addition: the regenerated code (Utv.Gen) is no longer equal to the hand model here" by
-    have he := hw.enter
-    have hc := hw.conv v
-    obtain ⟨omode, ad, ir, nd, dd, fd, iac, ce, me, mxp, mnp, iv, dfs, oci⟩ := o
-    obtain ⟨h1, h2⟩ := hcol
-    simp only at h1 h2
-    subst h1 h2
-    cases ad <;> cases hat : P.additionTyped <;> cases hconv : W5.addConv v <;> rw [hconv] at hc <;> cases iv <;>
-      simp only [encCtx, encOpts, encOnErr, encOptNat] at he <;>
-      obj_simp [Parse.parse_addition, Options.handle_error, encCtx, encOpts, encOptNat, encOnErr, getattr, setattr, lookupAttr, setAttrL, append,
-        contains, memS, OVal.isFalse, he, hc, eq, eqS, decodeAdd, errsOf, errOf, optOf, Except.map, parseAddition, hat, hconv,
-        tryCatch, tryCatchThe, MonadExceptOf.tryCatch, Except.tryCatch, Exc.isA, len, ge, le, OVal.isNone] <;> rfl
-
-/-- `parse_value(value, context, excluded_as_absent=True)`: value to store (if any), errors handled, and whether the
-value was dropped by the 'exclude' policy (`EXCLUDED`) -/
-def decodePV (k : Key) : OVal V × Obj.Outcome V → Option V × List Err × Bool
-  | (ctx, .ret (.obj "Excluded" _)) => (none, errsOf k ctx, true)
-  | (ctx, .ret v) => (optOf v, errsOf k ctx, false)
-  | (ctx, .raise _) => (none, errsOf k ctx, false)
-
-structure PVWorldOk (W : Obj.World V) (W5 : C05.World V) (f : PField V) (ctx : OVal V) : Prop where
-  enter : W.ext "enter" [ctx, .int f.name, .none] = .ok (.obj "RuntimeContext" [("transformer", .fn 0)])
-  conv : ∀ t x, W.call (.fn 0) [.val x, .cls t] =
-    match W5.fp t x with
-    | some y => .ok (.val y)
-    | none => .error .typeError
-  copy : ∀ v, W.ext "copy_value" [v] = .ok v
-
-theorem getattr_ctx_options (o : Opts V) (es : List (OVal V)) : getattr (encCtx o es) "options" = .ok (encOpts o) := by
-  simp [encCtx, getattr, lookupAttr, pure, Except.pure]
-
-section attrs
-variable (f : PField V)
-theorem ga_field : getattr (encField f) "field" = .ok (.obj "Field" [("deprecated", .bool false)]) := by
-  simp [encField, getattr, lookupAttr, pure, Except.pure]
-theorem ga_deprecated : getattr (OVal.obj "Field" [("deprecated", (.bool false : OVal V))]) "deprecated" = .ok (.bool false) := rfl
-theorem ga_type : getattr (encField f) "type" = .ok (match f.ty with | none => .none | some t => .cls t) := by
-  simp [encField, getattr, lookupAttr, pure, Except.pure]
-theorem ga_dmap : getattr (encField f) "discriminator_map" = .ok .none := by
-  simp [encField, getattr, lookupAttr, pure, Except.pure]
-theorem ga_name : getattr (encField f) "name" = .ok (.int f.name) := by
-  simp [encField, getattr, lookupAttr, pure, Except.pure]
-theorem ga_excluded : getattr (encField f) "EXCLUDED" = .ok (.obj "Excluded" []) := by
-  simp [encField, getattr, lookupAttr, pure, Except.pure]
-theorem ga_transformer : getattr (OVal.obj "RuntimeContext" [("transformer", (.fn 0 : OVal V))]) "transformer" = .ok (.fn 0) := rfl
-theorem ga_exclude (o : Opts V) : getattr (encOpts o) "EXCLUDE" = .ok (.str "exclude") := by
-  simp [encOpts, getattr, lookupAttr, pure, Except.pure]
-theorem ga_preserve (o : Opts V) : getattr (encOpts o) "PRESERVE" = .ok (.str "preserve") := by
-  simp [encOpts, getattr, lookupAttr, pure, Except.pure]
-end attrs
-
-/-- `handle_error` of a collecting context records the error and returns -/
-theorem handle_error_collecting (W : Obj.World V) (o : Opts V) (hcol : Collecting o) (es : List (OVal V)) (e : OVal V) :
-    Options.handle_error W (encCtx o es) e (.bool false) = .ok (encCtx o (es ++ [e]), .ret .none) := by
-  obtain ⟨omode, ad, ir, nd, dd, fd, iac, ce, me, mxp, mnp, iv, dfs, oci⟩ := o
-  obtain ⟨h1, h2⟩ := hcol
-  simp only at h1 h2
-  subst h1 h2
-  obj_simp [Options.handle_error, encCtx, encOpts, encOptNat, getattr, setattr, lookupAttr, setAttrL, append, OVal.isNone]
-
-theorem C05_gen_parse_value (W : Obj.World V) (W5 : C05.World V) (o : Opts V) (f : PField V) (v : V)
-    (hl : LettersOk o f) (hcol : Collecting o) (hw : PVWorldOk W W5 f (encCtx o [])) :
-    (Parse.parse_value W (encField f) (.val v) (encCtx o []) (.bool true)).map (decodePV f.name)
-      = .ok (parseValue Legacy.none W5 o f v) := by
-  gen_obligation "C05_gen_parse_value: the regenerated code (Utv.Gen) is no longer equal to the hand model here" by
-    have he := hw.enter
-    have h1 := C05_gen_get_on_error W o f
-    have h2 := C05_gen_is_required W o f hl
-    have h3 := C05_gen_get_default W o f false
-    unfold Parse.parse_value parseValue convert
-    cases hty : f.ty with
-    | none =>
-      simp only [getattr_ctx_options, bind, Except.bind, pure, Except.pure, ga_field, ga_deprecated, ga_type, ga_dmap,
-        ga_name, ga_excluded, truthy_bool, truthy_none, hty, Bool.false_eq_true, if_false, Bool.not_false, if_true]
-      simp [Except.map, decodePV, optOf, errsOf, encCtx, getattr, lookupAttr, pure, Except.pure]
-    | some t =>
-      have hc := hw.conv t v
-      cases hfp : W5.fp t v with
-      | some y =>
-        rw [hfp] at hc
-        simp only [getattr_ctx_options, bind, Except.bind, pure, Except.pure, ga_field, ga_deprecated, ga_type, ga_dmap,
-          ga_name, ga_excluded, ga_transformer, truthy_bool, truthy_none, truthy_cls, hty, he, hc, Bool.false_eq_true, if_false,
-          Bool.not_false, Bool.not_true, if_true, tryCatch, tryCatchThe, MonadExceptOf.tryCatch, Except.tryCatch]
-        simp only [hfp]
-        rfl
-      | none =>
-        rw [hfp] at hc
-        have hh := handle_error_collecting W o hcol []
-        cases hoe : getOnError o f <;> cases hreq : isRequired Legacy.none o f <;> cases hdf : getDefault o f false <;>
-          simp only [hoe, hreq, hdf] at h1 h2 h3 <;>
-          simp only [getattr_ctx_options, bind, Except.bind, pure, Except.pure, ga_field, ga_deprecated, ga_type, ga_dmap,
-            ga_name, ga_excluded, ga_transformer, ga_exclude, ga_preserve, truthy_bool, truthy_none, truthy_cls, hty, he, hc,
-            h1, h2, h3, hh, hw.copy, Bool.false_eq_true, if_false, Bool.not_false, Bool.not_true, if_true, tryCatch, tryCatchThe,
-            MonadExceptOf.tryCatch, Except.tryCatch, Exc.isA, List.contains_cons, List.contains_nil, encOnErr, eq, eqS,
-            List.nil_append] <;>
-          simp only [hfp, hoe, hreq, hdf] <;> rfl
-
 /-! ### `distinct_add` (utils/functional.py): `mkField`'s alias lists -/
 
 def encKey (k : Key) : OVal V := .int (k : Int)
@@ -511,5 +375,169 @@ theorem C05_gen_distinct_add (W : Obj.World V) (acc xs : List Key) :
         by_cases h : y ∈ a
         · simp [h]
         · simp [h, happ]
+
+/-! ### `parse_value` / `parse_addition` under a *collecting* context: what is stored and which errors are handled -/
+
+/-- a context with the errors handled so far, under the options `o` -/
+def encCtx (o : Opts V) (errors : List (OVal V)) : OVal V :=
+  .obj "RuntimeContext" [("errors", .seq .list errors), ("tmp_errors", .seq .list []), ("options", encOpts o)]
+
+/-- a *collecting* run: `collect_errors=True`, no `max_errors` — `handle_error` records and goes on -/
+def Collecting (o : Opts V) : Prop := o.collectErrors = true ∧ o.maxErrors = none
+
+/-- which model error an error object in the context's list stands for (for the key / field name `k`) -/
+def errOf (k : Key) : OVal V → Option Err
+  | .obj "ExceedError" _ => some (.exceed k)
+  | .obj "ParseError" _ => some (.parse k)
+  | _ => none
+
+def errsOf (k : Key) (ctx : OVal V) : List Err :=
+  match getattr ctx "errors" with
+  | .ok (.seq _ es) => es.filterMap (errOf k)
+  | _ => []
+
+def optOf : OVal V → Option V
+  | .val v => some v
+  | _ => none
+
+/-- `parse_addition`: the value kept (if any) and the errors handled, as the model's pair -/
+def decodeAdd (k : Key) : OVal V × Obj.Outcome V → Option V × List Err
+  | (ctx, .ret v) => (optOf v, errsOf k ctx)
+  | (ctx, .raise _) => (none, errsOf k ctx)
+
+structure AddWorldOk (W : Obj.World V) (W5 : C05.World V) (k : Key) (ctx : OVal V) : Prop where
+  enter : W.ext "enter" [ctx, encKey k, .none] = .ok (.obj "RuntimeContext" [("transformer", .fn 0)])
+  conv : ∀ x, W.call (.fn 0) [.val x, .cls 0] =
+    match W5.addConv x with
+    | some y => .ok (.val y)
+    | none => .error .typeError
+
+theorem C05_gen_parse_addition (W : Obj.World V) (W5 : C05.World V) (P : Parser V) (o : Opts V) (k : Key) (v : V)
+    (hcol : Collecting o) (hw : AddWorldOk W W5 k (encCtx o [])) :
+    (Parse.parse_addition W
+        (.obj "ClassParser" [("exclude_vars", encKeys P.excludeVars), ("addition_type", if P.additionTyped then .cls 0 else .none)])
+        (encKey k) (.val v) (encCtx o [])).map (decodeAdd k)
+      = .ok (parseAddition W5 P o k v) := by
+  gen_obligation "C05_gen_parse_addition: the regenerated code (Utv.Gen) is no longer equal to the hand model here" by
+    have he := hw.enter
+    have hc := hw.conv v
+    have hk : contains (V := V) (encKeys P.excludeVars) (encKey k) = .ok (P.excludeVars.contains k) := by
+      simp only [contains, encKeys, memS_keys]
+    obtain ⟨omode, ad, ir, nd, dd, fd, iac, ce, me, mxp, mnp, iv, dfs, oci⟩ := o
+    obtain ⟨h1, h2⟩ := hcol
+    simp only at h1 h2
+    subst h1 h2
+    cases hex : P.excludeVars.contains k <;> rw [hex] at hk <;>
+    cases ad <;> cases hat : P.additionTyped <;> cases hconv : W5.addConv v <;> rw [hconv] at hc <;> cases iv <;>
+      simp only [encCtx, encOpts, encOnErr, encOptNat] at he <;>
+      obj_simp [Parse.parse_addition, Options.handle_error, encCtx, encOpts, encOptNat, encOnErr, getattr, setattr, lookupAttr, setAttrL, append,
+        hk, hex, OVal.isFalse, he, hc, eq, eqS, decodeAdd, errsOf, errOf, optOf, Except.map, parseAddition, hat, hconv,
+        tryCatch, tryCatchThe, MonadExceptOf.tryCatch, Except.tryCatch, Exc.isA, len, ge, le, OVal.isNone] <;>
+      first | rfl | (simp_all; done) | (simp_all <;> rfl)
+
+/-- `parse_value(value, context, excluded_as_absent=True)`: value to store (if any), errors handled, and whether the
+value was dropped by the 'exclude' policy (`EXCLUDED`) -/
+def decodePV (k : Key) : OVal V × Obj.Outcome V → Option V × List Err × Bool
+  | (ctx, .ret (.obj "Excluded" _)) => (none, errsOf k ctx, true)
+  | (ctx, .ret v) => (optOf v, errsOf k ctx, false)
+  | (ctx, .raise _) => (none, errsOf k ctx, false)
+
+structure PVWorldOk (W : Obj.World V) (W5 : C05.World V) (f : PField V) (ctx : OVal V) : Prop where
+  enter : W.ext "enter" [ctx, .int f.name, .none] = .ok (.obj "RuntimeContext" [("transformer", .fn 0)])
+  conv : ∀ t x, W.call (.fn 0) [.val x, .cls t] =
+    match W5.fp t x with
+    | some y => .ok (.val y)
+    | none => .error .typeError
+  copy : CopyOk W W5
+
+theorem getattr_ctx_options (o : Opts V) (es : List (OVal V)) : getattr (encCtx o es) "options" = .ok (encOpts o) := by
+  simp [encCtx, getattr, lookupAttr, pure, Except.pure]
+
+section attrs
+variable (f : PField V)
+theorem ga_field : getattr (encField f) "field" = .ok (.obj "Field" [("deprecated", .bool false)]) := by
+  simp [encField, getattr, lookupAttr, pure, Except.pure]
+theorem ga_deprecated : getattr (OVal.obj "Field" [("deprecated", (.bool false : OVal V))]) "deprecated" = .ok (.bool false) := rfl
+theorem ga_type : getattr (encField f) "type" = .ok (match f.ty with | none => .none | some t => .cls t) := by
+  simp [encField, getattr, lookupAttr, pure, Except.pure]
+theorem ga_dmap : getattr (encField f) "discriminator_map" = .ok .none := by
+  simp [encField, getattr, lookupAttr, pure, Except.pure]
+theorem ga_name : getattr (encField f) "name" = .ok (.int f.name) := by
+  simp [encField, getattr, lookupAttr, pure, Except.pure]
+theorem ga_excluded : getattr (encField f) "EXCLUDED" = .ok (.obj "Excluded" []) := by
+  simp [encField, getattr, lookupAttr, pure, Except.pure]
+theorem ga_transformer : getattr (OVal.obj "RuntimeContext" [("transformer", (.fn 0 : OVal V))]) "transformer" = .ok (.fn 0) := rfl
+theorem ga_exclude (o : Opts V) : getattr (encOpts o) "EXCLUDE" = .ok (.str "exclude") := by
+  simp [encOpts, getattr, lookupAttr, pure, Except.pure]
+theorem ga_preserve (o : Opts V) : getattr (encOpts o) "PRESERVE" = .ok (.str "preserve") := by
+  simp [encOpts, getattr, lookupAttr, pure, Except.pure]
+end attrs
+
+/-- `handle_error` of a collecting context records the error and returns -/
+theorem handle_error_collecting (W : Obj.World V) (o : Opts V) (hcol : Collecting o) (es : List (OVal V)) (e : OVal V) :
+    Options.handle_error W (encCtx o es) e (.bool false) = .ok (encCtx o (es ++ [e]), .ret .none) := by
+  gen_obligation "C05_gen_parse_value (its lemma handle_error_collecting): the regenerated code (Utv.Gen) is no longer equal to the hand model here" by
+    obtain ⟨omode, ad, ir, nd, dd, fd, iac, ce, me, mxp, mnp, iv, dfs, oci⟩ := o
+    obtain ⟨h1, h2⟩ := hcol
+    simp only at h1 h2
+    subst h1 h2
+    obj_simp [Options.handle_error, encCtx, encOpts, encOptNat, getattr, setattr, lookupAttr, setAttrL, append, OVal.isNone]
+
+/-- `_invalid_value(error, raw, context, excluded_as_absent=True)` under a collecting context: the on_error policy -/
+theorem invalid_value_eq (W : Obj.World V) (W5 : C05.World V) (hcopy : CopyOk W W5) (o : Opts V) (f : PField V)
+    (hl : LettersOk o f) (hcol : Collecting o) (e : OVal V) (v : V) :
+    Parse.invalid_value W (encField f) e (.val v) (encCtx o []) (.bool true) = .ok (match getOnError o f with
+      | .exclude => if isRequired Legacy.none o f then (encCtx o [e], .ret (encOptVal (getDefault W5 o f false)))
+                    else (encCtx o [], .ret (.obj "Excluded" []))
+      | .preserve => (encCtx o [], .ret (.val v))
+      | .throw => (encCtx o [e], .ret .unprovided)) := by
+  gen_obligation "C05_gen_parse_value (its lemma invalid_value_eq): the regenerated code (Utv.Gen) is no longer equal to the hand model here" by
+    have h1 := C05_gen_get_on_error W o f
+    have h2 := C05_gen_is_required W o f hl
+    have h3 := C05_gen_get_default W W5 hcopy o f false
+    have hh := handle_error_collecting W o hcol []
+    unfold Parse.invalid_value
+    cases hoe : getOnError o f <;> cases hreq : isRequired Legacy.none o f <;>
+      simp only [hoe, hreq] at h1 h2 <;>
+      simp only [getattr_ctx_options, bind, Except.bind, pure, Except.pure, ga_excluded, ga_exclude, ga_preserve, truthy_bool,
+        h1, h2, h3, hh, encOnErr, eq, eqS, Bool.false_eq_true, if_false, if_true, List.nil_append] <;>
+      rfl
+
+theorem C05_gen_parse_value (W : Obj.World V) (W5 : C05.World V) (o : Opts V) (f : PField V) (v : V)
+    (hl : LettersOk o f) (hcol : Collecting o) (hw : PVWorldOk W W5 f (encCtx o [])) :
+    (Parse.parse_value W (encField f) (.val v) (encCtx o []) (.bool true)).map (decodePV f.name)
+      = .ok (parseValue Legacy.none W5 o f v) := by
+  gen_obligation "C05_gen_parse_value: the regenerated code (Utv.Gen) is no longer equal to the hand model here" by
+    have he := hw.enter
+    have h1 := C05_gen_get_on_error W o f
+    have h2 := C05_gen_is_required W o f hl
+    have h3 := C05_gen_get_default W W5 hw.copy o f false
+    unfold Parse.parse_value parseValue convert
+    cases hty : f.ty with
+    | none =>
+      simp only [getattr_ctx_options, bind, Except.bind, pure, Except.pure, ga_field, ga_deprecated, ga_type, ga_dmap,
+        ga_name, ga_excluded, truthy_bool, truthy_none, hty, Bool.false_eq_true, if_false, Bool.not_false, if_true]
+      simp [Except.map, decodePV, optOf, errsOf, encCtx, getattr, lookupAttr, pure, Except.pure]
+    | some t =>
+      have hc := hw.conv t v
+      cases hfp : W5.fp t v with
+      | some y =>
+        rw [hfp] at hc
+        simp only [getattr_ctx_options, bind, Except.bind, pure, Except.pure, ga_field, ga_deprecated, ga_type, ga_dmap,
+          ga_name, ga_excluded, ga_transformer, truthy_bool, truthy_none, truthy_cls, hty, he, hc, Bool.false_eq_true, if_false,
+          Bool.not_false, Bool.not_true, if_true, tryCatch, tryCatchThe, MonadExceptOf.tryCatch, Except.tryCatch]
+        simp only [hfp]
+        rfl
+      | none =>
+        rw [hfp] at hc
+        have hh := handle_error_collecting W o hcol []
+        cases hoe : getOnError o f <;> cases hreq : isRequired Legacy.none o f <;> cases hdf : getDefault W5 o f false <;>
+          simp only [hoe, hreq, hdf] at h1 h2 h3 <;>
+          simp only [getattr_ctx_options, bind, Except.bind, pure, Except.pure, ga_field, ga_deprecated, ga_type, ga_dmap,
+            ga_name, ga_excluded, ga_transformer, ga_exclude, ga_preserve, truthy_bool, truthy_none, truthy_cls, hty, he, hc,
+            h1, h2, h3, hh, encOptVal, invalid_value_eq W W5 hw.copy o f hl hcol, Bool.false_eq_true, if_false, Bool.not_false, Bool.not_true, if_true, tryCatch, tryCatchThe,
+            MonadExceptOf.tryCatch, Except.tryCatch, Exc.isA, List.contains_cons, List.contains_nil, encOnErr, eq, eqS,
+            List.nil_append] <;>
+          simp only [hfp, hoe, hreq, hdf] <;> rfl
 
 end Utv.GenEq.C05
